@@ -221,6 +221,17 @@ Check (C02live_run_invariant_initial : forall ca cb st,
   cc_ok (c_cc ca) -> cc_ok (c_cc cb) -> 0 <= c_now ca -> 0 <= c_now cb ->
   net_init ca cb = Ok st -> NI st).
 
+Check (C02live_all_written_bytes_eventually_delivered_partial : forall x Dt Da Dack n m evs fa st st' L0,
+  0 <= Dt -> 0 <= Dack -> 0 <= Da ->
+  NI st -> opts_ok st -> dl_sync Da fa st ->
+  run_all (safe3 x Dack) st evs -> fair_run Dt Da fa st evs -> net_run st evs = Ok st' ->
+  L0 <= l_len (ep_written (net_get st x)) ->
+  L0 - una_off (net_get st x) <= Z.of_nat n ->
+  L0 - read_off (net_get st (side_other x)) <= Z.of_nat m ->
+  net_now st x + Z.of_nat n * W3 Dt Dack + Z.of_nat m * Da < net_now st' x ->
+  exists pre post st1, evs = pre ++ post /\ net_run st pre = Ok st1 /\ net_run st1 post = Ok st' /\
+                       L0 <= read_off (net_get st1 (side_other x))).
+
 Check (C02live_composition_hypotheses_satisfiable :
   exists st0 st st',
     net_init ex_cfg_a ex_cfg_b = Ok st0 /\ net_run st0 wit_prefix = Ok st /\
@@ -228,7 +239,8 @@ Check (C02live_composition_hypotheses_satisfiable :
     run_all (safe3 SA 10000) st wit_suffix /\ fair_run 5000 5000 (fa_init 5000 5000 st) st wit_suffix /\
     net_run st wit_suffix = Ok st' /\
     5 <= l_len (ep_written (net_get st SA)) /\ 5 - una_off (net_get st SA) <= Z.of_nat 5 /\
-    net_now st SA + Z.of_nat 5 * W3 5000 10000 < net_now st' SA).
+    5 - read_off (net_get st SB) <= Z.of_nat 5 /\ 0 <= 5000 /\ 0 <= 5000 /\ 0 <= 10000 /\
+    net_now st SA + Z.of_nat 5 * W3 5000 10000 + Z.of_nat 5 * 5000 < net_now st' SA).
 
 Check (C02live_witness_prefix_is_lossy : In (NDrop SB 2) wit_prefix).
 
@@ -236,4 +248,4 @@ Check (C02live_composition_applies :
   exists st0 st st',
     net_init ex_cfg_a ex_cfg_b = Ok st0 /\ net_run st0 wit_prefix = Ok st /\ net_run st wit_suffix = Ok st' /\
     exists pre post st1, wit_suffix = pre ++ post /\ net_run st pre = Ok st1 /\ net_run st1 post = Ok st' /\
-                         5 <= una_off (net_get st1 SA) /\ 5 <= rcv_off (net_get st1 SB)).
+                         5 <= read_off (net_get st1 SB)).
